@@ -12,7 +12,7 @@ class EngineProp(Prop):
     profiles = ['legal']
     lean_modules = []
     n_quick = 400
-    n_thorough = 12000
+    n_thorough = 60000
     length = (6, 30)
 
     def cases(self, rng, tier):
